@@ -39,7 +39,10 @@ def gen(rng, old):
             t = rng.choice(internal)
             p = rng.choice(["", "0", "55", "abc", "500", "101", "1.0"])
             nn = rng.choice([n, n, 0, 255]) if iname(old, t) in ("I_ID_REQUEST", "I_LOG_MESSAGE", "I_GATEWAY_READY", "I_CONFIG", "I_TIME") else n
-            ops.append(("recv", f"{nn};255;3;{rng.choice([0, 0, 0, 1])};{t};{p}"))
+            if rng.random() < 0.12:
+                nn = 77         # a node that never registers in these histories (ids handed out stay below 30)
+            cc = 255 if rng.random() < 0.9 else rng.choice([0, 1, 254])   # internal messages normally carry child 255
+            ops.append(("recv", f"{nn};{cc};3;{rng.choice([0, 0, 0, 1])};{t};{p}"))
         elif x < 0.84:
             ops.append(("recv", f"{n};255;4;0;{rng.choice(stream)};00"))
         elif x < 0.94:
@@ -94,7 +97,9 @@ def excluded(op, old, new):
         return False
     name = iname(old, m[4]) if m[2] == 3 else None
     if name == "I_HEARTBEAT_RESPONSE" and new == "2.2" and old in ("2.0", "2.1"):
-        return True
+        # the exception is about what the heartbeat does to a registered node (sleeping flag,
+        # release); node 77 never registers in these histories, its heartbeats are compared
+        return m[0] != 77
     if old[0] != new[0] and name == "I_GATEWAY_READY":
         return True
     return False
@@ -109,9 +114,17 @@ def run(ctx, model_available=True):
     compared = 0
     skipped_missing = 0
     kinds = set()
+    # directed: the documented exception is about registered nodes; heartbeat responses from a node
+    # that never registers (every payload class) are compared on every 2.x pair
+    directed = {}
     for old, new in PAIRS:
-        for _ in range(n_hist):
-            ops = [op for op in gen(rng, old) if not excluded(op, old, new)]
+        if old[0] == "2":
+            directed[(old, new)] = [
+                [("recv", f"77;255;3;{a};22;{p}") for p in ("abc", "", "5", "1.0", " 7 ", "-1") for a in (0, 1)]
+                + [("recv", "1;255;0;0;17;2.0"), ("recv", "77;255;3;0;22;x"), ("recv", "77;255;3;0;22;12")]]
+    for old, new in PAIRS:
+        for hi in range(n_hist + len(directed.get((old, new), []))):
+            ops = [op for op in (gen(rng, old) if hi < n_hist else directed[(old, new)][hi - n_hist]) if not excluded(op, old, new)]
             a, b = run_one(ops, old), run_one(ops, new)
             impls += [a, b]
             ra = [r for r in a.raw if r is not None]
